@@ -1008,9 +1008,14 @@ func (*reader).Close
     flags locks lockonly noframe
     requires[locks] rdLocksFree()
 func (*reader).Delete
-    flags locks only_locks only_sync noframe
+    flags locks only_locks only_sync only_order only_crash noframe
     requires[sync_src] rs != nil && !fsDirty[rs.Log] && !fsDirty[rs.Index]
     assigns all
+    // C05: the original is removed only after its replacement is in place (rebase branch)
+    assert[order_replace_first] distinct4(rs.Log, rs.Index, nseg.Log, nseg.Index) ==> fsExists[nseg.Log] && fsExists[nseg.Index] at call (Segment).Remove 3
+    // C05 crash invariant noDup: no two segment files with overlapping offsets at any step. Fails on the
+    // rebase path between the rename to the new base and the removal of the old base (D8, KNOWN_FINDINGS.txt)
+    assert[crash_nodup] distinct4(rs.Log, rs.Index, nseg.Log, nseg.Index) && nseg.Log != r.segment.Log ==> !(fsExists[nseg.Log] && fsExists[r.segment.Log]) at call (Segment).Remove 3
     requires[locks] rdLocksFree()
 func (*reader).ConsumeByKey
     flags locks lockonly noframe
@@ -1037,10 +1042,12 @@ func (*writer).ReopenReader
     flags locks lockonly noframe
     requires[locks] ixLocksFree()
 func (*writer).Delete
-    flags locks only_locks only_sync noframe
+    flags locks only_locks only_sync only_order only_crash noframe
     requires[sync_src] rs != nil && !fsDirty[rs.Log] && !fsDirty[rs.Index]
     requires[sync_ok] wOK(w)
     assigns all
+    assert[order_replace_first] distinct4(rs.Log, rs.Index, nseg.Log, nseg.Index) ==> fsExists[nseg.Log] && fsExists[nseg.Index] at call (Segment).Remove 4
+    assert[crash_nodup] distinct4(rs.Log, rs.Index, nseg.Log, nseg.Index) && nseg.Log != w.segment.Log ==> !(fsExists[nseg.Log] && fsExists[w.segment.Log]) at call (Segment).Remove 4
     requires[locks] rdLocksFree() && ixLocksFree()
 func (*log).Publish
     flags locks only_locks only_sync noframe
